@@ -168,10 +168,17 @@ def coq_check(c, r):
         return "check_select %s %s %s %s" % (coq(faces), coq([Nat(i) for i in start_list(c, len(faces))]), coq(steps), coq(runs))
     if k == "c14.from_indices":
         faces = [tuple(Nat(x) for x in f) for f in c["faces"]]
-        # recover the old id of each new vertex by coordinates (coordinates are pairwise distinct in the generators)
+        # recover the old id of each new vertex: the i-th new triangle is the i-th selected face, corner by corner (coordinates alone
+        # do not identify a vertex when the mesh repeats a position; they are the fallback when the triangle counts differ)
+        old_of = {}
+        if len(r["faces"]) == len(c["idx"]):
+            for i, t in zip(c["idx"], r["faces"]):
+                for a, b in zip(c["faces"][i], t):
+                    old_of.setdefault(b, a)
         keep = []
-        for v in r["verts"]:
-            keep.append(Nat(c["verts"].index([float(x) for x in v])))
+        for j, v in enumerate(r["verts"]):
+            keep.append(Nat(old_of[j] if j in old_of and [float(x) for x in c["verts"][old_of[j]]] == [float(x) for x in v]
+                            else c["verts"].index([float(x) for x in v])))
         rust = Some((keep, [tuple(Nat(x) for x in f) for f in r["faces"]]))
         return "check_from_indices %s %s %s" % (coq(faces), coq([Nat(i) for i in c["idx"]]), coq(rust))
     return None
